@@ -22,6 +22,8 @@ structure Cfg where
   validatesValues : Bool      -- op values are checked with `Parse` before they are spliced in
   nan : NanRule
   fixint : FixintRule := .widen64
+  /-- REMOVE_VAL compares container elements too (canonical encodings), not only scalar leaves -/
+  rmvalCanon : Bool := false
   deriving DecidableEq, Repr
 
 /-! ### generic `Unmarshal` -/
